@@ -164,7 +164,9 @@ class ReaderHarness(object):
 
     def make_interp(self, script, eof_after=True):
         R = self.R
-        I = Interp(self.P, **self.ikw)
+        ikw = dict(self.ikw)
+        ikw.setdefault('while_bound', max(3, len(script) + 2))
+        I = Interp(self.P, **ikw)
         st = {'k': 0, 'script': script, 'content_calls': [], 'header_values': []}
         I.k1 = st
         header_rxs = {rx for _, rx in R.header_apps}
